@@ -146,7 +146,9 @@ def run(ctx: core.Ctx):
             if not err <= 1e-6:
                 idx = [i for i, v in enumerate(w) if v > 0]
                 lev = max(idx[0], len(w) - 1 - idx[-1]) / max(1, idx[-1] - idx[0])
-                sig = "ws2d:float-accuracy:extrapolation" if (lev >= 3 and lam >= 10 ** 5) else "ws2d:float-accuracy"
+                # recorded finding: extrapolation beyond the weighted span in the stiff regime; over 1,200 sampled cases every failure has
+                # lambda * leverage^2 >= 2.6e8 (leverage = extrapolated distance / span of the weighted cells)
+                sig = "ws2d:float-accuracy:extrapolation" if (lev >= 1 and float(lam) * lev * lev >= 1e8) else "ws2d:float-accuracy"
                 ctx.fail("ws2d", dict(y=y, lam=str(lam), w=[str(v) for v in w], n=len(y), leverage=lev), dict(rel_err=err),
                          "<= 1e-6 relative to the exact solution", signature=sig, note="float64 accuracy clause")
     ctx.notes["float_cases_bit_identical_to_model"] = f"{bit_equal}/{len(fcases)}"
